@@ -14,7 +14,8 @@
         Err(BatchError::retry(_, batch))  ↦ `Outcome.failRetry` with the items still in `batch` (`retryable.len()`,
                                      batcher lib.rs:430: the last `batch.len()` items of the current call)
         Err(BatchError::no_retry(_))      ↦ `Outcome.failNoRetry`
-        a crash of the filesystem         ↦ no successor state (the process is gone);
+        a crash of the filesystem         ↦ the process is gone: the filesystem is what the crash left (synced content,
+                                     durable entries), `crashed` is set and no label is enabled any more;
   * every other label of the channel (sends, flush registrations, hand-off, callbacks, waits, drops) is unchanged.
 
   Ghost components record, for the theorems, where the filesystem log stood when the held batch began, which
@@ -36,13 +37,14 @@ structure St where
   ch : Batcher.St
   fs : FileSet.St
   cur : Option FileSet.Batch        -- the EventBatch the receiver holds (in `on_batch` or waiting for its retry)
+  crashed : Bool                    -- a filesystem call crashed the process: nothing runs any more
   -- ghost
   began : Nat                       -- length of the filesystem log when the held batch was first handed over
   okd : List (Nat × Nat)            -- (item, `began` of its batch) for batches that concluded Ok
   failed : List Nat                 -- items of batches that concluded as failed (no_retry / retries exhausted)
 
 def init (fs0 : FileSet.St) : St :=
-  { ch := Batcher.init, fs := fs0, cur := none, began := 0, okd := [], failed := [] }
+  { ch := Batcher.init, fs := fs0, cur := none, crashed := false, began := 0, okd := [], failed := [] }
 
 inductive Label where
   | chan (l : Batcher.Label)                     -- a channel step other than the conclusion of `on_batch`
@@ -52,7 +54,7 @@ inductive Label where
 /-- The items of the current call that are still in the batch handed back for a retry. -/
 def remainder (cur : List Nat) (b' : FileSet.Batch) : List Nat := cur.drop (cur.length - b'.rest.length)
 
-def step (cfg : Cfg) (s : St) : Label → Option St
+def stepLive (cfg : Cfg) (s : St) : Label → Option St
   | .chan (.rxOutcome _) => none
   | .chan .rxBegin =>
     match Batcher.step cfg.ch s.ch .rxBegin with
@@ -78,8 +80,11 @@ def step (cfg : Cfg) (s : St) : Label → Option St
       | (.noRetry, fs') =>
         (Batcher.step cfg.ch s.ch (.rxOutcome .failNoRetry)).map fun ch' =>
           { s with ch := ch', fs := fs', cur := none, failed := s.failed ++ orig }
-      | (.crashed, _) => none
+      | (.crashed, fs') => some { s with fs := fs', crashed := true }
     | _, _ => none
+
+/-- After a crash nothing runs; before it, `stepLive`. -/
+def step (cfg : Cfg) (s : St) (l : Label) : Option St := if s.crashed then none else stepLive cfg s l
 
 /-- The channel label a composite label is, given the state it is taken in. -/
 def chanLabel (cfg : Cfg) (s : St) : Label → Option Batcher.Label
